@@ -220,7 +220,41 @@ def split(r, N):
     return [b - a for a, b in zip([0] + cuts, cuts + [N])]
 
 
+def si_previous_length_sweep(ctx):
+    """every length 0 .. 3L-1 of a previous utterance, for one small short-integration configuration per frame style
+    whose translation exceeds the frame shift (the overlap-save bookkeeping `_x_rem` / `_skip` / `_y_rem` that an
+    utterance leaves behind depends on its length modulo the block size): the next utterance must be bit-identical to
+    that of a fresh instance"""
+    from pydrobert.speech import compute, filters
+
+    bank = filters.GaborFilterBank("mel", num_filts=4, sampling_rate=8000)
+    for style in ("centered", "causal"):
+        def mk():
+            return compute.SIFrameComputer(bank, frame_shift_ms=2.0, frame_style=style)
+        c0 = mk()
+        L = c0.frame_length
+        x2 = np.random.RandomState(77).randn(3 * L + 7)
+        ref = mk().compute_full(x2)
+        for n1 in range(0, 3 * L):
+            if ctx.out_of_time():
+                return
+            case = dict(computer="si", bank="gabor", style=style, L=L, S=c0.frame_shift, hist=[("full", n1, "float64")], N=len(x2), sweep="previous_length")
+            ctx.case(case, kind="si_prev_len:" + style)
+            a = mk()
+            try:
+                a.compute_full(np.random.RandomState(78).randn(n1))
+                y = a.compute_full(x2)
+            except Exception as e:
+                ctx.violation(case, "no exception", "%s: %s" % (type(e).__name__, e), "history of calls raises",
+                              tags=dict(clause="raises", computer="si", exc=type(e).__name__))
+                continue
+            if y.shape != ref.shape or y.tobytes() != ref.tobytes():
+                ctx.violation(case, "bit-identical", "differs", "history-laden instance vs fresh instance on the next utterance (bit-identical)",
+                              tags=dict(clause="history_independence", computer="si"))
+
+
 def library_history_oracle(ctx):
+    si_previous_length_sweep(ctx)
     """library banks, STFT and SI: history-laden instance vs fresh instance, bit-identical"""
     from pydrobert.speech import compute, filters
 
